@@ -332,6 +332,7 @@ def run(ctx):
     from . import c11
     c11._run(_Renumber(ctx, {1: 6, 2: 6, 3: 6, 4: 6, 5: 6, 6: 6}))
     check_validation(ctx, 7)
+    check_no_exact_bounds_on_counters(ctx, 7)
     sh = c05.check_plan(_Renumber(ctx, {1: 8, 2: 8, 5: 8, 6: 8, 7: 8}))
     c05.check_tick_body(_Renumber(ctx, {4: 8, 5: 8, 6: 8, 7: 8}), sh)
     c10.check_duration(_Renumber(ctx, {3: 8, 6: 8}), 3)
@@ -668,6 +669,47 @@ def _loop_paths_all_pass(g, w: ast.While, nodes: List[ast.AST]) -> bool:
             if g.path_avoiding(t, {hid}, ids, edge_ok=edge_ok) is not None:
                 return False
     return True
+
+
+FLOAT_COUNTERS = {"avail_ram_pool", "consumed_ram_gb", "avail_cpu_pool", "_current_memory"}
+
+
+def check_no_exact_bounds_on_counters(ctx, num=7):
+    """The pools' free / used counters are kept by adding and subtracting many float amounts: they sit within their bounds only up to rounding
+    (a few 1e-15 below 0 or above the capacity after a long valid run).  An assertion or raise in the executor that holds such a counter against a
+    literal or against the capacity stops valid runs.  (The admission test compares a batch's request with the free counter: that is the
+    documented refusal, C03#3 / C08#11, and not a bound on the counter.)"""
+    P = ctx.P
+    n_checked = 0
+    for m in P.real_modules():
+        if not m.rel.startswith("eudoxia/executor/"):
+            continue
+        from ..util import view_funcs
+        for f in view_funcs(P, m):
+            g = None
+            for n in own_nodes(f.node):
+                tests = []
+                if isinstance(n, ast.Assert):
+                    tests = [n.test]
+                elif isinstance(n, ast.Raise):
+                    p_ = parent(n)
+                    if isinstance(p_, ast.If) and any(n is b for b in p_.body + p_.orelse):
+                        tests = [p_.test]
+                for t in tests:
+                    n_checked += 1
+                    for cmp_ in [x for x in ast.walk(t) if isinstance(x, ast.Compare)]:
+                        sides = [cmp_.left] + list(cmp_.comparators)
+                        counters = [s_ for s_ in sides if isinstance(s_, ast.Attribute) and s_.attr in FLOAT_COUNTERS]
+                        if not counters:
+                            continue
+                        others = [s_ for s_ in sides if s_ not in counters]
+                        bound = [o for o in others if isinstance(o, ast.Constant) or (isinstance(o, ast.UnaryOp) and isinstance(o.operand, ast.Constant))
+                                 or (isinstance(o, ast.Attribute) and o.attr.startswith("max_"))]
+                        ctx.ob(num, "K14a", "no assertion / raise of the executor holds an incrementally kept float counter (free CPU / RAM, used RAM) against a literal or the "
+                               "capacity: after many float additions the counter meets such a bound only up to rounding, and a valid run would be stopped", not bound, f, n,
+                               construct=f"{norm.U(cmp_)[:90]}", detail=f"counter {norm.U(counters[0])} compared with {[norm.U(o) for o in others]}")
+    ctx.ob(num, "K14a", "the assertions and raises of the executor package were examined for exact bounds on float counters", n_checked >= 5, None, None,
+           file="eudoxia/executor/resource_pool.py", construct="assert / raise sites in eudoxia/executor", detail=f"{n_checked} site(s)")
 
 
 def check_termination(ctx, num=12):
